@@ -20,7 +20,9 @@ impl MemoryRegion {
 // derived PartialEq unused here.
 
 // E1 stand-ins for fields no contracted function touches
-#[verifier::external_body] pub struct OpaqueConfig { _p: () }
+// E1 stand-in for BufferManagerConfig: only `budget` is read by the contracted functions (fractions, paths dropped)
+#[verifier::external_body] pub struct OpaqueConfigRest { _p: () }
+pub struct BufferManagerConfig { pub budget: usize, pub rest: OpaqueConfigRest }
 #[verifier::external_body] pub struct OpaqueConsumers { _p: () }
 #[verifier::external_body] pub struct MemoryGrant { _p: () }
 
@@ -58,6 +60,12 @@ impl BufferManager {
                 final(self).region_allocated@ == old(self).region_allocated@,
     { }
 
+    @@BufferManager::allocated@@
+
+    @@BufferManager::budget@@
+
+    @@BufferManager::available@@
+
     @@BufferManager::try_allocate@@
 
     @@BufferManager::try_allocate_raw@@
@@ -90,12 +98,11 @@ def build(repo):
     f = u.method(REG, 'MemoryRegion', 'index').D1().ret('r')
     f.ensures('range', 'r < 4 && r == self.index_spec()')
     bm = u.item(SRC, 'struct', 'BufferManager').D1(keep_derive=set()).V1()
-    bm.sub('E1', 'config: BufferManagerConfig,', 'config: OpaqueConfig,')
     bm.sub('E2', 'allocated: AtomicUsize,', 'allocated: usize,')
     bm.sub('E2', 'region_allocated: [AtomicUsize; 4],', 'region_allocated: [usize; 4],')
     bm.sub('E1', 'consumers: RwLock<Vec<Arc<dyn MemoryConsumer>>>,', 'consumers: OpaqueConsumers,')
     bm.sub('E2', 'shutdown: AtomicBool,', 'shutdown: bool,')
-    for w, why in [('external_body OpaqueConfig', 'E1: BufferManagerConfig is not read by the contracted functions'),
+    for w, why in [('external_body OpaqueConfigRest', 'E1: the fields of BufferManagerConfig other than `budget` (f64 fractions, PathBuf) are not read by the contracted functions'),
                    ('external_body OpaqueConsumers', 'E1: RwLock<Vec<Arc<dyn MemoryConsumer>>> is only read by the eviction callees'),
                    ('external_body MemoryGrant', 'E1: the grant handle (Arc<dyn GrantReleaser> inside) is opaque'),
                    ('external_body make_grant', 'E1: MemoryGrant::new(Arc::clone(self) as Arc<dyn GrantReleaser>, ..) at the tail of try_allocate'),
@@ -108,6 +115,15 @@ def build(repo):
         # optional: if a counter update disappears from the source there is nothing to sequentialise and the proof must fail
         f.resub_opt('E2', re.escape('self.allocated.fetch_add(size, Ordering::Relaxed);'), 'fetch_add_usize(&mut self.allocated, size);')
         f.resub_opt('E2', re.escape('self.region_allocated[region.index()].fetch_add(size, Ordering::Relaxed);'), 'let ri = region.index(); let ro = load_usize(&self.region_allocated[ri]); self.region_allocated.set(ri, ro.wrapping_add(size));')
+
+    f = u.method(SRC, 'BufferManager', 'allocated').D1().ret('r')
+    f.resub('E2', r'self\.allocated\.load\(Ordering::Relaxed\)', 'load_usize(&self.allocated)')
+    f.ensures('value', 'r == self.allocated')
+    f = u.method(SRC, 'BufferManager', 'budget').D1().ret('r')
+    f.ensures('value', 'r == self.config.budget')
+    f = u.method(SRC, 'BufferManager', 'available').D1().ret('r')
+    f.resub('E2', r'self\.allocated\.load\(Ordering::Relaxed\)', 'load_usize(&self.allocated)')
+    f.ensures('value', 'r == (if self.config.budget >= self.allocated { self.config.budget - self.allocated } else { 0 }) as usize')
 
     POST_OK = ('final(self).allocated <= final(self).hard_limit && final(self).allocated >= size && final(self).allocated - size <= old(self).allocated'
                ' && final(self).region_allocated@[region.index_spec() as int] == old(self).region_allocated@[region.index_spec() as int] + size'
